@@ -355,7 +355,15 @@ def case_exact(case, col=None, exact=True):
         if "DimensionalityError" in model[1]:
             raise Violation("accepted_dimension_mismatch", f"{_render(tree)}: returned {_short(ra)} although operands of +,-,//,% or an ordering differ in dimension")
         raise Violation("accepted_invalid_expression", f"{_render(tree)}: returned {_short(ra)}; model: {model[1]}")
-    if exact:
+    if exact and case.get("autoreduce"):
+        # auto-reduction merges units through fractional powers of their factors (meter * lambda -> meter ** 4 needs a cube root), which
+        # pint evaluates in floats in every registry: the values are compared, not their exactness
+        def _f(n):
+            return tuple(_f(x) for x in n) if isinstance(n, tuple) and n and isinstance(n[0], tuple) else ((n[0],) + tuple(float(x) if isinstance(x, (int, Fraction, float)) and not isinstance(x, bool) else x for x in n[1:]))
+        fa, fb, fw = _f(tuple(x for x in na if x != "FLOAT")), _f(tuple(x for x in nb if x != "FLOAT")), _f(_model_norm(model[1]))
+        if not _close(fa, fb, 0.0) or not _close(fa, fw, 0.0):
+            raise Violation("value_depends_on_units:autoreduce", f"{_render(tree)}: A -> {na}, B -> {nb}, reference {_model_norm(model[1])}")
+    elif exact:
         if "FLOAT" in repr(na) or "FLOAT" in repr(nb):
             k = "float_contamination_in_exact_arithmetic"
             if _has_negative_pow(tree):
